@@ -1,6 +1,6 @@
 """Hot/cold shard protocol rules for histograms (C02 and C03)."""
 from pvrules.mir import is_call, peel, show, strip_generics, subterms
-from pvrules.rules import SELF_FIELD, atomic_prim, const_int, count_range, elem_of, ord_ge, ordering_of
+from pvrules.rules import SELF_FIELD, atomic_prim, bypass_guards, const_int, count_range, elem_of, ord_ge, ordering_of, skips_only_zero
 from . import hist_common as hcm
 from . import vec_common as vc
 
@@ -362,6 +362,18 @@ def rule_R6_snapshot(ctx, f, rid):
 
 # ---------------------------------------------------------------------------------------------------- C03
 
+def _merged_once(b, merge, ref_bb, delta, unsigned):
+    """The merge event runs exactly once, or at most once where every condition it has beyond those of the (unconditional) reference block
+    only skips the addition of a zero delta."""
+    rng = count_range(b, [merge["bb"]])
+    if rng == (1, 1):
+        return True
+    if rng != (0, 1) or ref_bb is None:
+        return False
+    extra = [g for g in bypass_guards(b, merge["bb"]) if g not in bypass_guards(b, ref_bb)]
+    return bool(extra) and all(skips_only_zero(b, g, merge["bb"], delta, unsigned) for g in extra)
+
+
 def rule_C03(ctx, f):
     ctx.rule("R1", "conservation pairing in proto: each drained component (count, sum, every bucket i) is reset on the cold shard by the operation that yields the drained value, "
                    "merged exactly once into the SAME component and index of the hot shard, and reported exactly once in the snapshot, before the guard is released; the bucket loop "
@@ -378,10 +390,12 @@ def rule_C03(ctx, f):
         # count: CAS(n -> 0) / merge hot.count.inc_by(n)
         cas = [e for e in drains if e["comp"] == "count"]
         mc = [e for e in merges if e["comp"] == "count"]
+        _ds = [e for e in drains if e["comp"] == "sum"]
+        ref_bb = _ds[0]["bb"] if len(_ds) == 1 and count_range(b, [_ds[0]["bb"]]) == (1, 1) else None
         ok = len(cas) == 1 and len(mc) == 1
         if ok:
             c = cas[0]["call"]
-            ok = peel(c.args[1]) == n and const_int(c.args[2]) == 0 and peel(mc[0]["call"].args[1]) == n and count_range(b, [mc[0]["bb"]]) == (1, 1)
+            ok = peel(c.args[1]) == n and const_int(c.args[2]) == 0 and peel(mc[0]["call"].args[1]) == n and _merged_once(b, mc[0], ref_bb, n, True)
         ctx.ob("R1", "proto|count-conserved", ok, "the cold count must be reset from n (count at the flip) to 0 and exactly n added to the hot count, once", site=(mc[0]["call"].span if mc else b.raw["span"]["at"]))
         if len(cas) == 1:
             c = cas[0]["call"]
@@ -404,7 +418,7 @@ def rule_C03(ctx, f):
         ms = [e for e in merges if e["comp"] == "sum"]
         ok = len(ds) == 1 and len(ms) == 1
         if ok:
-            ok = ds[0]["op"] == "swap" and const_int(ds[0]["call"].args[1]) == 0 and peel(ms[0]["call"].args[1]) == ds[0]["call"].result_term() and count_range(b, [ms[0]["bb"]]) == (1, 1) and count_range(b, [ds[0]["bb"]]) == (1, 1)
+            ok = ds[0]["op"] == "swap" and const_int(ds[0]["call"].args[1]) == 0 and peel(ms[0]["call"].args[1]) == ds[0]["call"].result_term() and _merged_once(b, ms[0], ds[0]["bb"], ds[0]["call"].result_term(), False) and count_range(b, [ds[0]["bb"]]) == (1, 1)
         ctx.ob("R1", "proto|sum-conserved", ok, "the cold sum must be swapped with 0 and exactly the drained value added to the hot sum, once", site=(ms[0]["call"].span if ms else b.raw["span"]["at"]))
         # buckets
         db = [e for e in drains if e["comp"] == "buckets"]
@@ -420,7 +434,13 @@ def rule_C03(ctx, f):
                 from pvrules.rules import count_range_region
                 si = b.switch_info(nx[-1].target)
                 be_ = [t for v, t in si[1] if v == 1][0]
-                ok = count_range_region(b, [db[0]["bb"]], be_, [nx[-1].bb]) == (1, 1) and count_range_region(b, [mb[0]["bb"]], be_, [nx[-1].bb]) == (1, 1)
+                ok = count_range_region(b, [db[0]["bb"]], be_, [nx[-1].bb]) == (1, 1)
+                rm = count_range_region(b, [mb[0]["bb"]], be_, [nx[-1].bb])
+                if ok and rm == (0, 1):
+                    extra = [g for g in bypass_guards(b, mb[0]["bb"]) if g not in bypass_guards(b, db[0]["bb"])]
+                    ok = bool(extra) and all(skips_only_zero(b, g, mb[0]["bb"], db[0]["call"].result_term(), True) for g in extra)
+                elif ok:
+                    ok = rm == (1, 1)
         ctx.ob("R1", "proto|buckets-conserved", ok, "for every bound index i the cold bucket i must be swapped with 0 and exactly the drained value added to hot bucket i", site=(mb[0]["call"].span if mb else b.raw["span"]["at"]))
     rule_R6_snapshot(ctx, f, "R1")
     # ---- R2 flush
